@@ -15,7 +15,7 @@ let rec e = function
   | Lst [A "field"; p; A h] -> EField (e p, unhex h) | Lst [A "index"; p; k] -> EIndex (e p, e k)
   | Lst [A "call"; f; A sg; Lst a] -> ECall (e f, sg = "1", L.map e a) | Lst [A "method"; o; A m; A sg; Lst a] -> EMethod (e o, unhex m, sg = "1", L.map e a)
   | Lst [A "un"; A u; x] -> EUn (uop u, e x) | Lst [A "bin"; A b; l; r] -> EBin (bop b, e l, e r) | Lst [A "paren"; x] -> EParen (e x)
-  | Lst [A "table"; Lst fs] -> ETable (L.map e fs)
+  | Lst [A "table"; Lst fs] -> ETable (L.map e fs) | Lst [A "tableml"; Lst fs] -> ETableML (L.map e fs)
   | Lst [A "fpos"; x] -> FPos (e x) | Lst [A "fnamed"; A n; x] -> FNamed (unhex n, e x) | Lst [A "fkey"; k; x] -> FKey (e k, e x)
   | _ -> failwith "exp"
 let names = function Lst l -> L.map (function A h -> unhex h | _ -> failwith "name") l | _ -> failwith "names"
@@ -39,6 +39,7 @@ and els = function
   | Lst [A "noelse"] -> NoElse | Lst [A "else"; b] -> Else (blk b) | Lst [A "elseif"; c; t; r] -> ElseIf (e c, blk t, els r)
   | _ -> failwith "els"
 
+let max_samples = try int_of_string (Sys.getenv "L0_SAMPLES") with _ -> 3
 let records = ref 0 and bad = ref 0 and changed = ref 0 and samples = ref 0 and bytes = ref 0
 let report k id = incr bad; Printf.printf "BAD %s %s\n" k id
 let handle line = match words line with
@@ -67,7 +68,7 @@ let handle line = match words line with
         let model = format0 cfg p and o = unhex out in
         bytes := !bytes + L.length o;
         if o <> unhex src then incr changed;
-        if model <> o then (report "binary-differs-from-the-L0-model" id; if !samples < 3 && win = "0" && spaces = "0" then (incr samples; Printf.printf "SAMPLE %s model=%s\n" id (hex model)))
+        if model <> o then (report "binary-differs-from-the-L0-model" id; if !samples < max_samples && win = "0" && spaces = "0" then (incr samples; Printf.printf "SAMPLE %s model=%s\n" id (hex model)))
     end
   | "UNPARSED" :: id :: _ -> report "generated-program-does-not-parse" id
   | "STATS" :: _ -> print_endline line
